@@ -1,9 +1,20 @@
 """C26 — directory locks provide mutual exclusion (breezy/lockdir.py: LockDir,
-src/lockdir.rs: LockHeldInfo.is_lock_holder_known_dead).
+src/lockdir.rs: LockHeldInfo.is_lock_holder_known_dead, crates/osutils/src/lib.rs:
+is_local_pid_dead).
 
 Model: lean/BreezyVerif/Model/C26.lean — any number of lockers as step machines
 whose steps are exactly the transport calls; events start an operation, perform
-the pending call, inject a fault into it, or crash the locker.
+the pending call, inject a fault into it, or crash the locker.  Every locker has
+a host, a LOGNAME, a numeric uid and locks.steal_dead; the dead-holder decision
+is `knownDead … (pidDeadOf (killZero processExists maySignal))`: kill(pid, 0) gives
+ESRCH iff the process is gone, else EPERM iff the caller is neither root nor of
+the holder's uid, else Ok; only ESRCH means dead.
+
+T1 (extract): the arms of `match kill(pid, None)` in is_local_pid_dead and the
+early-return chain of is_lock_holder_known_dead are transcribed from the current
+Rust source into Generated/C26.lean; Props/C26T1.lean proves them equal to
+pidDeadOf (all four outcomes, incl. "any other errno") and knownDead (all 32
+inputs, incl. the localhost rule).
 
 T2: real `LockDir` objects, one thread each, on one MemoryTransport (thorough:
 also a local directory).  Every transport call goes through `GateTransport`,
@@ -15,14 +26,32 @@ last result are rendered and compared with the model's rendering.
   * sampled: 2-4 lockers, random programs over attempt/unlock/confirm/break_lock,
     crashes (the crashed locker's pid is the pid of a killed child process, so
     the real `is_lock_holder_known_dead` sees a dead pid), steal on/off,
-    foreign host / foreign user lockers
-  * decision table of `is_lock_holder_known_dead` on crafted info objects
+    foreign host / foreign user lockers, and — when the harness is root — uid
+    classes: a locker of an unprivileged uid class records the pid of a live
+    process of that uid and asks `is_lock_holder_known_dead` in a process that
+    really runs under that uid (`UidHelper`, `InfoProxy`), so a live holder of
+    another uid really answers EPERM; directed cross-uid schedules
+  * decision table of `is_lock_holder_known_dead` / `is_local_pid_dead`:
+    recorded host × user × probed process (this process, init, reaped child,
+    live and killed processes of two unprivileged uids) × asking uid (root and
+    both unprivileged uids), with the errno of the real kill(pid, 0) checked
+    against the model's `killZero`; the `localhost` rule is asked in a private
+    UTS namespace whose host name is localhost
+  * two real processes on a lock directory on disk: holder uid class × alive /
+    killed × contender uid class × same / other LOGNAME × steal on / off
+    (72 scenarios, enumerated), compared with the model op `xuid`
 Oracle (on the real objects only): (O1) at most one live locker has is_held
 unless a break was decided against a live holder; (O2) the `held` directory a
 break renames away carries the info that break examined; (O3) a steal is only
 started against a holder whose recorded host and user are ours and whose
 process is dead, with locks.steal_dead on; (O4) while nobody has broken
-anything, is_held implies held/info is owned by that locker.
+anything, is_held implies held/info is owned by that locker; (O5) the decision
+table says "known dead" only for our host (not localhost), our user, a recorded
+pid and a process that is gone, whoever asks; (O6) in the two-process scenarios
+the contender acquires only if the holder process was killed, the LOGNAME is
+the same and stealing is on — never while the holder process is alive.
+Without root the cross-uid parts are skipped and the evidence says so
+(`cross_uid`, assumptions).
 
 Mutants this was built against (scratch worktrees; result of the run in brackets):
   M1 `_attempt_lock`: FileExists on the rename treated as success and the nonce comparison dropped
@@ -31,7 +60,7 @@ Mutants this was built against (scratch worktrees; result of the run in brackets
      not see its own lock there"; needs break + re-acquisition between]
   M3 `force_break`: first `current_info != dead_holder_info` check dropped [oracle O2, family None: "decided to
      break o0.1 (force_break then saw o4.1) but renames away held/ of o4.1"; needs the holder to change between
-     break_lock's peek and force_break's peek]
+     break_lock's peek and force_break's peek; re-run after the cross-uid extension: still caught]
   M4 `_handle_lock_contention`: `is_lock_holder_known_dead()` ignored [oracle O3: steals a live holder's lock]
   M5 src/lockdir.rs `is_lock_holder_known_dead`: user comparison dropped [decision-table oracle: known dead for
      another user's dead pid; plus T2 on schedules with a foreign-user stealer]
@@ -39,13 +68,32 @@ Mutants this was built against (scratch worktrees; result of the run in brackets
   M7 `_attempt_lock`: `_lock_held = True` before the confirming peek [T2 only: is_held differs at the pending
      confirm; no property failure without faults — C27 catches it with a fault]
   M8 `unlock`: `_lock_held` not cleared [oracle O4: is_held with held/ absent]
+  M9 `_handle_lock_contention`: locks.steal_dead ignored [oracle O6: "the lock of a dead holder was stolen although
+     locks.steal_dead is off"; O3 and T2 as well]
+  R1 crates/osutils `is_local_pid_dead`: `Err(EPERM) => true` [oracle O5: "is_local_pid_dead=True asked by uid class 1
+     for the live process (init)"; O3/O6: live holder of another uid stolen from; 148 T2 mismatches; T1 fails.
+     Needs a live holder owned by a different uid than the (non-root) contender]
+  R2 the seeded change of /var/tmp/seed-C26b: every kill error = dead [same as R1]
+  R3 src/lockdir.rs `is_lock_holder_known_dead`: the `localhost` rule dropped [oracle O5 in the UTS namespace:
+     "is_lock_holder_known_dead=True on a machine named localhost for ['ours', 'verifuser1', 'dead']"; T1 fails.
+     Needs a machine whose host name is localhost]
+  R5 `is_local_pid_dead`: only the catch-all `Err(err)` arm returns true [cannot be provoked on Linux: T1
+     pid_dead_arms_eq fails, reported as a broken tie, no-failing-input-found]
   H1 harmless: `_remove_pending_dir` rewritten as a loop, releasing name built with % [clean: 0 mismatches, only
      the F7 family reported]
+  H2 harmless: match arms merged and reordered (`Ok(()) | Err(EPERM) => false`, `Err(_) => { false }`), user and
+     localhost guards swapped [clean: T1 retranslates, 20/20 theorems, 0 mismatches]
 """
 import itertools
+import json
 import os
 import queue
+import re
+import select
+import signal
+import struct
 import subprocess
+import sys
 import threading
 
 from vlib import env
@@ -53,26 +101,274 @@ from vlib import env
 THEOREMS = [
     "claim_on_disk", "mutex_no_break", "mutex_single_breaker_partial",
     "break_removes_examined_partial", "break_race_witness",
-    "steal_only_if_dead_and_ours", "known_dead_table",
+    "pid_dead_iff_esrch", "pid_dead_iff_process_gone", "stealable_iff_ours_and_gone",
+    "steal_only_if_dead_and_ours", "steal_in_progress_holder_gone", "policy_never_breaks_live_holder",
+    "mutex_single_stealer", "mutex_exclusive_breaks_partial", "mutex_exclusive_stealers_partial",
+    "break_removes_examined_exclusive_partial", "unlock_removes_own_exclusive_partial", "confirm_ok_iff_on_disk",
+    "known_dead_table",
 ]
-RUST = ("cmd-py",)
-RULE = ("a case is (number of lockers, per-locker host/user/steal, initial held/, event list); events are "
-        "start-op / perform pending transport call / crash; non-trivial = some locker performs a step while "
-        "another locker is in the middle of an operation")
+# T1 (Props/C26T1.lean).  The equalities are semantic (all outcomes of kill(pid, 0) / all 32 inputs), so when
+# the current source was translated and they fail, the code differs from the model: a broken tie (strict list).
+# Only when the source has a shape the translator does not know do they move to the lenient list (recorded,
+# not reported, as long as T2 is clean) — see extract().
+_T1 = ["pid_dead_arms_eq", "known_dead_guards_eq"]
+T1_THEOREMS = list(_T1)
+T1_EQUALITY_THEOREMS = []
+RUST = ("cmd-py", "osutils-py")
+RULE = ("a scheduled case is (number of lockers, per-locker host/LOGNAME/steal/uid class, initial held/, event "
+        "list); events are start-op / perform pending transport call / crash; non-trivial = some locker performs a "
+        "step while another locker is in the middle of an operation.  Decision-table cases are (asking uid class, "
+        "recorded host, recorded user, kind of probed process); two-process cases are (holder uid class, holder "
+        "LOGNAME, killed?, contender uid class, contender LOGNAME, steal?) — all non-trivial, enumerated completely")
 ASSUMPTIONS = [
     "rand_chars never collides: temporary directory names and nonces are unique",
     "transport rename of a directory onto an existing directory fails (MemoryTransport, POSIX non-empty target)",
     "the lock directory itself exists (LockDir.create was called)",
     "a crashed locker's pid is dead and pids are not reused; host names identify machines",
+    "kill(pid, 0) follows POSIX for plain setuid processes: ESRCH iff no such process, else EPERM iff the caller "
+    "is neither root nor of the target's uid (checked against the kernel on every root run: a deviation is "
+    "reported as an infrastructure error)",
 ]
 TRUSTED = [
     "thread scheduling is modelled as interleaving at transport-call granularity",
-    "the 'localhost' rule of is_lock_holder_known_dead is only exercised when the machine's host name is localhost",
+    "a simulated locker of an unprivileged uid class is a thread of the (root) harness process; only its "
+    "is_lock_holder_known_dead question is asked in a process that really runs under that uid (the two-process "
+    "scenarios and the decision table use real processes throughout)",
+    "errnos of kill(pid, 0) other than ESRCH/EPERM cannot be provoked; that arm of is_local_pid_dead is tied by "
+    "T1 (pid_dead_arms_eq) only",
 ]
 
 LOCK = "lock"
 OUR_HOST, OTHER_HOST, LOCALHOST = 1, 2, 0
 FAMILY_F7 = "force-break-holder-changed-between-peek-and-rename"
+# uid classes of simulated processes: 0 = the uid the harness runs as (root), 1 and 2 = two unprivileged
+# numeric uids (no passwd entry needed).  Only used when the harness runs as root.
+UIDS = {1: 54321, 2: 54322}
+HELPER_TIMEOUT = 60
+
+
+def can_cross_uid():
+    """root is needed to make processes of other uids; VERIF_C26_NO_CROSS_UID=1 forces the non-root path"""
+    return hasattr(os, "setuid") and os.getuid() == 0 and not os.environ.get("VERIF_C26_NO_CROSS_UID")
+
+
+# ---- T1: the two Rust decision functions, transcribed from the current source ------------------
+
+class _Untranslatable(Exception):
+    pass
+
+
+def _rust_body(src, header_re, which=0):
+    """text between the braces of the `which`-th function whose header matches, comments removed"""
+    ms = list(re.finditer(header_re, src))
+    if len(ms) <= which:
+        raise _Untranslatable("function header %r not found" % header_re)
+    i = src.index("{", ms[which].end() - 1)
+    out, depth, n = [], 0, len(src)
+    while i < n:
+        c = src[i]
+        if src.startswith("//", i):
+            while i < n and src[i] != "\n":
+                i += 1
+            continue
+        if src.startswith("/*", i):
+            i = src.index("*/", i) + 2
+            continue
+        if c == '"':
+            j = i + 1
+            while src[j] != '"':
+                j += 2 if src[j] == "\\" else 1
+            out.append(src[i:j + 1])
+            i = j + 1
+            continue
+        if c == "{":
+            depth += 1
+            if depth == 1:
+                i += 1
+                continue
+        elif c == "}":
+            depth -= 1
+            if depth == 0:
+                return "".join(out)
+        out.append(c)
+        i += 1
+    raise _Untranslatable("unbalanced braces")
+
+
+def _split_top(text, sep):
+    """split at `sep` outside (), [], {} and string literals"""
+    parts, cur, depth, i, n = [], [], 0, 0, len(text)
+    while i < n:
+        c = text[i]
+        if c == '"':
+            j = i + 1
+            while text[j] != '"':
+                j += 2 if text[j] == "\\" else 1
+            cur.append(text[i:j + 1])
+            i = j + 1
+            continue
+        if c in "([{":
+            depth += 1
+        elif c in ")]}":
+            depth -= 1
+        if depth == 0 and text.startswith(sep, i):
+            parts.append("".join(cur))
+            cur = []
+            i += len(sep)
+            continue
+        cur.append(c)
+        i += 1
+    parts.append("".join(cur))
+    return parts
+
+
+def _nows(t):
+    return re.sub(r"\s+", "", t)
+
+
+def _block_value(text):
+    """value of an arm body / block: a bool literal, possibly after `debug!(..);` statements"""
+    t = text.strip()
+    if t.startswith("{") and t.endswith("}"):
+        t = t[1:-1]
+    stmts = [x.strip() for x in _split_top(t, ";")]
+    for st in stmts[:-1]:
+        if not re.fullmatch(r"debug!\(.*\)", st, re.S):
+            raise _Untranslatable("statement %r in a decision arm" % st)
+    if stmts[-1] not in ("true", "false"):
+        raise _Untranslatable("arm value %r is not a bool literal" % stmts[-1])
+    return stmts[-1]
+
+
+def _pid_dead_arms(src):
+    """arms of `match kill(pid, None)` in the unix `is_local_pid_dead` → [(ArmPat, bool)]"""
+    body = _rust_body(src, r"#\[cfg\(unix\)\]\s*pub fn is_local_pid_dead\(pid: u32\) -> bool\s*\{")
+    flat = _nows(body)
+    if "letpid=Pid::from_raw(pidasi32);" not in flat:
+        raise _Untranslatable("the probed pid is not Pid::from_raw(pid as i32)")
+    m = re.search(r"match\s+kill\(\s*pid\s*,\s*None\s*\)\s*\{", body)
+    if not m or not _nows(body[:m.start()]).endswith("letpid=Pid::from_raw(pidasi32);"):
+        raise _Untranslatable("is_local_pid_dead is not a single match on kill(pid, None)")
+    inner = _rust_body(body[m.start():], r"match\s+kill\(\s*pid\s*,\s*None\s*\)\s*\{")
+    if _nows(body[m.start():]) != "matchkill(pid,None){" + _nows(inner) + "}":
+        raise _Untranslatable("code after the match")
+    arms, rest = [], inner.strip()
+    while rest:
+        pat, sep, rest = rest.partition("=>")
+        if not sep:
+            raise _Untranslatable("arm without =>")
+        rest = rest.lstrip()
+        if rest.startswith("{"):
+            depth = 0
+            for k, c in enumerate(rest):
+                depth += c == "{"
+                depth -= c == "}"
+                if depth == 0:
+                    break
+            bodytxt, rest = rest[:k + 1], rest[k + 1:].lstrip()
+            if rest.startswith(","):
+                rest = rest[1:]
+        else:
+            pieces = _split_top(rest, ",")
+            bodytxt, rest = pieces[0], ",".join(pieces[1:])
+        val = _block_value(bodytxt)
+        for alt in _split_top(_nows(pat), "|"):
+            if alt in ("Ok(_)", "Ok(())"):
+                ap = ".ok"
+            elif alt == "_":
+                ap = ".any"
+            elif re.fullmatch(r"Err\((_|[a-z_][a-z0-9_]*)\)", alt):
+                ap = ".anyErr"
+            else:
+                mm = re.fullmatch(r"Err\((?:[A-Za-z_]+::)*(E[A-Z0-9]+)\)", alt)
+                if not mm or mm.group(1) not in ("ESRCH", "EPERM"):
+                    raise _Untranslatable("arm pattern %r" % alt)
+                ap = "." + mm.group(1).lower()
+            arms.append((ap, val))
+        rest = rest.strip()
+    return arms
+
+
+_GUARDS = {
+    "self.hostname!=Some(breezy_osutils::get_host_name().unwrap())": ".hostNe",
+    "self.hostname==Some(breezy_osutils::get_host_name().unwrap())": ".hostEq",
+    'self.hostname==Some("localhost".to_string())': ".isLocalhost",
+    'self.hostname!=Some("localhost".to_string())': ".notLocalhost",
+    "self.user!=Some(get_username_for_lock_info())": ".userNe",
+    "self.user==Some(get_username_for_lock_info())": ".userEq",
+    "self.pid.is_none()": ".pidNone",
+    "self.pid.is_some()": ".pidSome",
+}
+
+
+def _known_dead_guards(src):
+    """`if c { return b; }`* + tail of `is_lock_holder_known_dead` → ([(Guard, bool)], Tail)"""
+    body = _rust_body(src, r"pub fn is_lock_holder_known_dead\(&self\) -> bool\s*\{").strip()
+    guards = []
+    while body.startswith("if"):
+        i = body.index("{")
+        cond = _nows(body[2:i])
+        depth = 0
+        for k in range(i, len(body)):
+            depth += body[k] == "{"
+            depth -= body[k] == "}"
+            if depth == 0:
+                break
+        blk, body = body[i + 1:k], body[k + 1:].strip()
+        if body.startswith("else"):
+            raise _Untranslatable("else branch")
+        stmts = [x.strip() for x in _split_top(blk, ";")]
+        if stmts[-1] != "":
+            raise _Untranslatable("guard block does not end in a return statement")
+        stmts = stmts[:-1]
+        for st in stmts[:-1]:
+            if not re.fullmatch(r"debug!\(.*\)", st, re.S):
+                raise _Untranslatable("statement %r in a guard" % st)
+        mm = re.fullmatch(r"return\s+(true|false)", stmts[-1]) if stmts else None
+        if not mm:
+            raise _Untranslatable("guard block %r" % blk)
+        if cond not in _GUARDS:
+            raise _Untranslatable("guard condition %r" % cond)
+        guards.append((_GUARDS[cond], mm.group(1)))
+    tail = _nows(body)
+    if tail == "breezy_osutils::is_local_pid_dead(self.pid.unwrap())":
+        t = ".pidDead"
+    elif tail in ("true", "false"):
+        t = "(.lit %s)" % tail
+    else:
+        raise _Untranslatable("tail expression %r" % tail)
+    return guards, t
+
+
+def extract(ctx):
+    sys.path.insert(0, os.path.join(env.VERIF, "tools"))
+    import extract as ex
+    notes, defs = [], []
+    try:
+        arms = _pid_dead_arms(open(os.path.join(env.REPO, "crates/osutils/src/lib.rs")).read())
+        defs.append("def genPidDeadArms : List (ArmPat × Bool) := [%s]" % ", ".join("(%s, %s)" % a for a in arms))
+    except (_Untranslatable, ValueError, IndexError, OSError) as e:
+        notes.append("is_local_pid_dead: %s" % e)
+        defs.append("-- NOT TRANSLATABLE: %s\ndef genPidDeadArms : List (ArmPat × Bool) := []" % str(e).replace("\n", " "))
+    try:
+        guards, tail = _known_dead_guards(open(os.path.join(env.REPO, "src/lockdir.rs")).read())
+        defs.append("def genKnownDeadGuards : List (Guard × Bool) := [%s]" % ", ".join("(%s, %s)" % g for g in guards))
+        defs.append("def genKnownDeadTail : Tail := %s" % tail)
+    except (_Untranslatable, ValueError, IndexError, OSError) as e:
+        notes.append("is_lock_holder_known_dead: %s" % e)
+        defs.append("-- NOT TRANSLATABLE: %s\ndef genKnownDeadGuards : List (Guard × Bool) := []\n"
+                    "def genKnownDeadTail : Tail := .lit true" % str(e).replace("\n", " "))
+    text = ("-- GENERATED by harness/checks/c26.py from crates/osutils/src/lib.rs (is_local_pid_dead) and\n"
+            "-- src/lockdir.rs (LockHeldInfo.is_lock_holder_known_dead) — do not edit\n"
+            "import BreezyVerif.Model.C26\nnamespace BreezyVerif.C26\n" + "\n".join(defs) + "\nend BreezyVerif.C26\n")
+    ex.write_if_changed(os.path.join(env.VERIF, "lean/BreezyVerif/Generated/C26.lean"), text)
+    if notes:
+        # the generated definitions are deliberately wrong, so the T1 equalities fail instead of silently
+        # referring to an older transcription; an unknown shape is not by itself a difference in behaviour
+        T1_THEOREMS[:], T1_EQUALITY_THEOREMS[:] = [], list(_T1)
+        raise ex.ExtractError("; ".join(notes))
+    T1_THEOREMS[:], T1_EQUALITY_THEOREMS[:] = list(_T1), []
+    return "regenerated genPidDeadArms (match arms of is_local_pid_dead) and genKnownDeadGuards/Tail"
 
 
 class _Abort(BaseException):
@@ -172,6 +468,297 @@ class _NoStealConfig:
         raise KeyError(name)
 
 
+class _StealConfig:
+    def get(self, name):
+        if name == "locks.steal_dead":
+            return True
+        raise KeyError(name)
+
+
+def _drop_to(uid):
+    os.setgroups([])
+    os.setgid(uid)
+    os.setuid(uid)
+
+
+_LIBC = []
+
+
+def _die_with_parent():
+    """PR_SET_PDEATHSIG(SIGKILL), after the uid change (which clears it); best effort — the helpers also
+    leave when their request pipe reaches EOF"""
+    try:
+        if _LIBC and _LIBC[0] is not None:
+            _LIBC[0].prctl(1, signal.SIGKILL, 0, 0, 0)
+    except Exception:
+        pass
+
+
+def _load_libc():
+    if not _LIBC:
+        try:
+            import ctypes
+            _LIBC.append(ctypes.CDLL(None, use_errno=True))
+        except Exception:
+            _LIBC.append(None)
+
+
+def _send(fd, obj):
+    data = json.dumps(obj).encode()
+    data = struct.pack("!I", len(data)) + data
+    while data:
+        data = data[os.write(fd, data):]
+
+
+def _recv(fd, timeout=None):
+    """one framed JSON message; None on EOF; InfraError when the peer does not answer in time"""
+    buf = b""
+    need = 4
+    header = True
+    while True:
+        while len(buf) < need:
+            if timeout is not None and not select.select([fd], [], [], timeout)[0]:
+                raise env.InfraError("C26: helper process did not answer within %ss" % timeout)
+            chunk = os.read(fd, need - len(buf))
+            if not chunk:
+                return None
+            buf += chunk
+        if header:
+            need, buf, header = struct.unpack("!I", buf)[0], b"", False
+            if need == 0:
+                return json.loads("null")
+        else:
+            return json.loads(buf.decode())
+
+
+class UidHelper:
+    """A fork of this process that has dropped to an unprivileged uid (or, for `uts`, has moved into a
+    private UTS namespace whose host name is `localhost`).  It evaluates the REAL
+    `LockHeldInfo.is_lock_holder_known_dead` / `osutils.is_local_pid_dead` on request, so `kill(pid, 0)` is
+    really issued by that uid against real processes.  It is also a live process owned by that uid: its pid
+    is what a live simulated locker of that uid class records in its lock."""
+
+    def __init__(self, uid=None, uts=False):
+        import dromedary
+        from breezy import lockdir, osutils
+        from breezy._cmd_rs import LockHeldInfo
+        _load_libc()
+        if can_cross_uid():
+            _xproc_warm()
+        req_r, req_w = os.pipe()
+        rep_r, rep_w = os.pipe()
+        self.lock = threading.Lock()
+        pid = os.fork()
+        if pid == 0:
+            code = 0
+            try:
+                os.close(req_w)
+                os.close(rep_r)
+                for other in _HELPERS.values():          # pipe ends of sibling helpers
+                    for fd in (other._w, other._r):
+                        try:
+                            os.close(fd)
+                        except OSError:
+                            pass
+                signal.signal(signal.SIGTERM, signal.SIG_DFL)
+                signal.signal(signal.SIGINT, signal.SIG_IGN)
+                if uts:
+                    import socket
+                    os.unshare(os.CLONE_NEWUTS)
+                    socket.sethostname("localhost")
+                if uid is not None:
+                    _drop_to(uid)
+                _die_with_parent()
+                os.umask(0)
+                sleepers, locks = {}, {}
+                while True:
+                    msg = _recv(req_r)
+                    if msg is None:
+                        break
+                    try:
+                        if msg["op"] in ("hold", "try") and not locks:
+                            # A fork inherits the state of the Rust thread RNG (rand 0.9 has no fork protection), so
+                            # sibling processes would produce the SAME nonces; real independent processes do not.
+                            # Reading more than the reseed threshold (64 KiB) makes this process reseed from the OS.
+                            for _ in range(900):
+                                LockHeldInfo.for_this_process(None)
+                        if msg["op"] == "kd":
+                            os.environ["LOGNAME"] = msg["logname"]
+                            info = LockHeldInfo.from_info_file_bytes(bytes.fromhex(msg["info"]))
+                            out = bool(info.is_lock_holder_known_dead())
+                        elif msg["op"] == "pd":
+                            out = bool(osutils.is_local_pid_dead(msg["pid"]))
+                        elif msg["op"] == "k0":
+                            out = _kill0(msg["pid"])
+                        elif msg["op"] == "hold":
+                            os.environ["LOGNAME"] = msg["logname"]
+                            ld = lockdir.LockDir(dromedary.get_transport_from_path(msg["dir"]), LOCK)
+                            ld.create()
+                            ld.attempt_lock()
+                            locks[msg["dir"]] = ld
+                            out = ["HELD", os.getpid(), os.getuid(), ld.peek().pid]
+                        elif msg["op"] == "try":
+                            os.environ["LOGNAME"] = msg["logname"]
+                            ld = lockdir.LockDir(dromedary.get_transport_from_path(msg["dir"]), LOCK)
+                            ld.get_config = _StealConfig if msg["steal"] else _NoStealConfig
+                            try:
+                                ld.attempt_lock()
+                                res = "ok"
+                            except lockdir.errors.LockContention:
+                                res = "E:Contention"
+                            except Exception as e:
+                                res = "E:%s: %s" % (type(e).__name__, e)
+                            mine = False
+                            if ld.is_held:
+                                info = ld.peek()
+                                mine = info is not None and info.nonce == ld.nonce
+                            locks[msg["dir"]] = ld
+                            out = [res, bool(ld.is_held), mine, os.getuid(), os.getpid()]
+                        elif msg["op"] == "confirm":
+                            ld = locks[msg["dir"]]
+                            try:
+                                ld.confirm()
+                                res = "ok"
+                            except lockdir.errors.LockBroken:
+                                res = "E:LockBroken"
+                            out = [res, bool(ld.is_held)]
+                        elif msg["op"] == "spawn":
+                            # a process of this uid that does nothing (vfork+exec from here is cheap; a
+                            # fork+setuid+exec from the big root process is not)
+                            sp = subprocess.Popen(["/bin/sleep", "100000"], stdin=subprocess.DEVNULL)
+                            sleepers[sp.pid] = sp
+                            out = sp.pid
+                        elif msg["op"] == "reap":
+                            sp = sleepers.pop(msg["pid"])
+                            sp.kill()
+                            sp.wait()
+                            out = True
+                        elif msg["op"] == "who":
+                            out = [os.getuid(), os.getpid(), LockHeldInfo.for_this_process(None).hostname]
+                        else:
+                            out = "E:bad-op"
+                    except BaseException as e:       # reported to the parent, which decides
+                        out = "E:%s: %s" % (type(e).__name__, e)
+                    _send(rep_w, out)
+            except BaseException:
+                code = 3
+            finally:
+                os._exit(code)
+        os.close(req_r)
+        os.close(rep_w)
+        self.pid, self._w, self._r, self.owner = pid, req_w, rep_r, os.getpid()
+        who = self.ask(dict(op="who"))
+        if not isinstance(who, list) or who[1] != pid or (uid is not None and who[0] != uid) or (
+                uts and who[2] != "localhost"):
+            raise env.InfraError("C26: helper process for uid=%r uts=%r did not come up: %r" % (uid, uts, who))
+
+    def ask(self, msg):
+        with self.lock:
+            _send(self._w, msg)
+            out = _recv(self._r, HELPER_TIMEOUT)
+        if out is None or (isinstance(out, str) and out.startswith("E:")):
+            raise env.InfraError("C26: helper process failed on %r: %r" % (msg.get("op"), out))
+        return out
+
+    def known_dead(self, logname, info_bytes):
+        return self.ask(dict(op="kd", logname=logname, info=bytes(info_bytes).hex()))
+
+    def pid_dead(self, pid):
+        return self.ask(dict(op="pd", pid=pid))
+
+    def spawn(self):
+        return _Sleeper(self)
+
+    def close(self):
+        for fd in (self._w, self._r):
+            try:
+                os.close(fd)
+            except OSError:
+                pass
+        try:
+            os.kill(self.pid, signal.SIGTERM)     # normally it is already leaving on EOF
+        except OSError:
+            pass
+        try:
+            os.waitpid(self.pid, 0)
+        except OSError:
+            pass
+
+
+class _Sleeper:
+    """a live do-nothing process: of the harness's uid (Popen) or of a helper's uid; kill() also reaps it, so
+    that afterwards no process with that pid exists"""
+
+    def __init__(self, via=None):
+        self.via = via
+        if via is None:
+            self.p = subprocess.Popen(["/bin/sleep", "100000"])
+            self.pid = self.p.pid
+        else:
+            self.pid = via.ask(dict(op="spawn"))
+
+    def kill(self):
+        if self.via is None:
+            self.p.kill()
+            self.p.wait()
+        elif self.via.owner == os.getpid():
+            self.via.ask(dict(op="reap", pid=self.pid))
+
+
+_HELPERS = {}
+
+
+def helper(key):
+    """per-process helper: key = uid class (1, 2) or "uts"; a forked pool worker makes its own"""
+    k = (os.getpid(), key)
+    h = _HELPERS.get(k)
+    if h is None:
+        for old in [x for x in _HELPERS if x[0] != os.getpid()]:
+            del _HELPERS[old]            # belongs to the parent process; its pipes are not ours to use
+        if key == "uts":
+            h = UidHelper(uts=True)
+        else:
+            # 1, 2: the process of that uid class; ("c", class): a second process of that class (0 = our uid)
+            c = key[1] if isinstance(key, tuple) else key
+            h = UidHelper(uid=UIDS[c] if c else None)
+        _HELPERS[k] = h
+    return h
+
+
+def close_helpers():
+    for k in [x for x in _HELPERS if x[0] == os.getpid()]:
+        _HELPERS.pop(k).close()
+
+
+class InfoProxy:
+    """What `peek()` returns to a simulated locker of an unprivileged uid class: the real `LockHeldInfo`,
+    except that `is_lock_holder_known_dead` is evaluated (by the same real code, on the same bytes) in the
+    helper process that really runs under that uid."""
+
+    def __init__(self, real, data, uidc, logname):
+        self.__dict__.update(_real=real, _data=bytes(data), _uidc=uidc, _logname=logname)
+
+    def is_lock_holder_known_dead(self):
+        return helper(self._uidc).known_dead(self._logname, self._data)
+
+    def __getattr__(self, name):
+        return getattr(self._real, name)
+
+    def __eq__(self, other):
+        return self._real == (other._real if isinstance(other, InfoProxy) else other)
+
+    def __ne__(self, other):
+        return not self.__eq__(other)
+
+    __hash__ = None
+
+    def __str__(self):
+        return str(self._real)
+
+    def __repr__(self):
+        return repr(self._real)
+
+
 class Worker(threading.Thread):
     """A locker's thread.  Threads are pooled and re-bound to the next case."""
 
@@ -249,6 +836,13 @@ class World:
         self.t.mkdir(LOCK)
         self.cfgs = cfgs
         self.n = len(cfgs)
+        # uid class of every locker's process (4th cfg component, default: the harness's own uid)
+        self.uidc = [c[3] if len(c) > 3 else 0 for c in cfgs]
+        self.cross = any(self.uidc)
+        if self.cross and not can_cross_uid():
+            raise env.InfraError("C26: a case with several uids needs the harness to run as root")
+        for c in sorted(set(self.uidc) - {0}):
+            helper(c)                 # forked here, from the thread that drives the case
         self.tls = _TLS
         self.rep = threading.Semaphore(0)
         self.nonce_map = {}
@@ -259,10 +853,14 @@ class World:
         self.children = {}
         self.pids = []
         for i in range(self.n):
+            c = self.uidc[i]
             if i in crashers:
-                p = subprocess.Popen(["/bin/sleep", "100000"])
+                # a real process (owned by the locker's uid) that is killed at the crash event
+                p = helper(c).spawn() if c else _Sleeper()
                 self.children[i] = p
                 self.pids.append(p.pid)
+            elif c:
+                self.pids.append(helper(c).pid)        # a live process owned by that uid
             else:
                 self.pids.append(os.getpid())
         self.lds = []
@@ -349,8 +947,11 @@ class World:
         except Exception as e:
             return "E:" + type(e).__name__
 
+    def logname(self, lid):
+        return "verifuser%d" % self.cfgs[lid][1]
+
     def _set_env(self, lid):
-        os.environ["LOGNAME"] = "verifuser%d" % self.cfgs[lid][1]
+        os.environ["LOGNAME"] = self.logname(lid)
 
     def _wait(self, w):
         self.rep.acquire()
@@ -372,7 +973,6 @@ class World:
             p = self.children.pop(lid, None)
             if p is not None:
                 p.kill()
-                p.wait()
             return
         if kind == "s":
             lid, op = int(ev[1:-1]), ev[-1]
@@ -412,7 +1012,6 @@ class World:
                 self.rep.acquire()
         for p in self.children.values():
             p.kill()
-            p.wait()
         self.children = {}
 
     # ---- observation ------------------------------------------------------------
@@ -522,9 +1121,16 @@ class World:
                     ok = (owner < self.n and self.crashed[owner] and self.cfgs[owner][0] == OUR_HOST
                           and self.cfgs[owner][1] == self.cfgs[lid][1] and self.cfgs[lid][2])
                 if not ok:
+                    why = "is not known dead / not ours / stealing is off"
+                    if seen.startswith("o") and "?" not in seen and int(seen[1:].split(".")[0]) < self.n:
+                        o = int(seen[1:].split(".")[0])
+                        if not self.crashed[o]:
+                            why = ("is a live process (pid %d, uid class %d; the stealer has uid class %d, so "
+                                   "kill(pid, 0) says %s)" % (
+                                       self.pids[o], self.uidc[o], self.uidc[lid],
+                                       "Ok" if self.uidc[lid] in (0, self.uidc[o]) else "EPERM"))
                     self.oracle.append((
-                        "locker %d steals the lock %s whose holder is not known dead / not ours / stealing is off"
-                        % (lid, seen), None))
+                        "locker %d steals the lock %s whose holder %s" % (lid, seen, why), None))
                     self.broke_alive = True
             if w.pending == "rename:P>H":
                 w.in_steal = False
@@ -556,7 +1162,7 @@ BAD_INFOS = [b"\x00\xff\xfe", b"nonce: [", b"pid: 12\nuser: me\nnonce: abc\nhost
 
 class _Meta(type):
     def __instancecheck__(cls, obj):
-        return isinstance(obj, cls._real)
+        return isinstance(obj, cls._real) or isinstance(obj, InfoProxy)
 
 
 def install():
@@ -572,9 +1178,19 @@ def install():
 
     class Shim(metaclass=_Meta):
         """`LockHeldInfo` as seen by lockdir.py: real objects, but the recorded
-        host name / pid are those of the simulated process of the calling locker"""
+        host name / pid are those of the simulated process of the calling locker,
+        and a locker of an unprivileged uid class asks `is_lock_holder_known_dead`
+        in a process of that uid (`InfoProxy`)"""
         _real = Real
-        from_info_file_bytes = Real.from_info_file_bytes
+
+        @staticmethod
+        def from_info_file_bytes(data):
+            info = Real.from_info_file_bytes(data)
+            w = getattr(_TLS, "world", None)
+            lid = getattr(_TLS, "lid", None)
+            if w is not None and lid is not None and w.cross and w.uidc[lid]:
+                return InfoProxy(info, data, w.uidc[lid], w.logname(lid))
+            return info
 
         @staticmethod
         def for_this_process(extra):
@@ -590,10 +1206,14 @@ def install():
     lockdir.LockHeldInfo = Shim
 
     def released(result):
-        _TLS.events.append("released")
+        ev = getattr(_TLS, "events", None)       # None: not a scheduled locker thread
+        if ev is not None:
+            ev.append("released")
 
     def broken(result):
-        _TLS.events.append("broken")
+        ev = getattr(_TLS, "events", None)
+        if ev is not None:
+            ev.append("broken")
 
     lock.Lock.hooks.install_named_hook("lock_released", released, "verif")
     lock.Lock.hooks.install_named_hook("lock_broken", broken, "verif")
@@ -630,8 +1250,12 @@ def run_case(case):
         w.close()
 
 
+def _cfg_str(c):
+    return "%d.%d.%s" % (c[0], c[1], "T" if c[2] else "F") + (".%d" % c[3] if len(c) > 3 else "")
+
+
 def model_line(case):
-    cfgs = ",".join("%d.%d.%s" % (h, u, "T" if s else "F") for h, u, s in case["cfgs"])
+    cfgs = ",".join(_cfg_str(c) for c in case["cfgs"])
     return "run %d %s %s %s" % (len(case["cfgs"]), cfgs, case.get("held", "-"), ",".join(case["events"]) or "-")
 
 
@@ -692,7 +1316,9 @@ def explore(cfgs, programs, held="-", limit=None, root=()):
         prefix.append((alts[0], alts[1:]))
 
 
-def random_case(rng, faults=False):
+def random_case(rng, faults=False, uids=False):
+    """`uids`: give the lockers' processes uid classes (0 = root, 1, 2); off for C27, which shares this
+    generator, and when the harness is not root"""
     n = rng.choice([2, 3, 3, 3, 4])
     cfgs = []
     for i in range(n):
@@ -733,7 +1359,47 @@ def random_case(rng, faults=False):
             pcs[cur] += 1
         else:
             events.append("t%d" % cur)
+    if uids and rng.random() < 0.35:
+        # same LOGNAME under different uids (su without -l, service accounts): who may signal whom now matters
+        for c in cfgs:
+            c.append(rng.choice([0, 0, 1, 1, 2]))
+            if c[0] == OUR_HOST and rng.random() < 0.7:
+                c[2] = True
     return dict(cfgs=cfgs, held="-", events=events)
+
+
+def cross_uid_case(rng):
+    """X (uid class cx) acquires and is alive or gets killed; contenders of other uid classes (some with the
+    same LOGNAME, some stealing) attempt at various points, also while another steal is in progress; X
+    confirms / unlocks.  With a live X and a contender that is neither root nor X's uid, kill(pid, 0) says
+    EPERM; with root or the same uid it says Ok; with a dead X it says ESRCH."""
+    n = rng.choice([3, 3, 4])
+    cfgs = []
+    for i in range(n):
+        user = 1 if rng.random() < 0.85 else 2
+        cfgs.append([OUR_HOST, user, i > 0 and rng.random() < 0.85, rng.choice([0, 1, 1, 2, 2])])
+    if len({c[3] for c in cfgs}) == 1:
+        cfgs[1][3] = (cfgs[0][3] + 1) % 3
+    ev = ["s0a"] + ["t0"] * 4
+    dead = rng.random() < 0.4
+    kill_at = rng.randrange(0, 3) if dead else None
+    for round_ in range(3):
+        if kill_at == round_:
+            ev.append("x0")
+        order = list(range(1, n))
+        rng.shuffle(order)
+        for i in order[:rng.randrange(1, n)]:
+            ev += ["s%da" % i] + ["t%d" % i] * rng.choice([6, 6, 11, 11, rng.randrange(0, 12)])
+        if rng.random() < 0.5:
+            ev += ["s0c", "t0"]
+        if rng.random() < 0.25:
+            ev += ["s0u"] + ["t0"] * 4 + ["s0a"] + ["t0"] * rng.choice([4, 6, 11])
+        for i in order:
+            if rng.random() < 0.3:
+                ev += ["t%d" % i] * rng.randrange(1, 12)
+            if rng.random() < 0.15:
+                ev += ["s%du" % i] + ["t%d" % i] * 4
+    return dict(cfgs=cfgs, held="-", events=ev)
 
 
 F7_CASES = [
@@ -799,33 +1465,270 @@ def _interleaved(events):
     return False
 
 
+def _kill0(pid):
+    try:
+        os.kill(pid, 0)
+        return "ok"
+    except ProcessLookupError:
+        return "ESRCH"
+    except PermissionError:
+        return "EPERM"
+    except OSError:
+        return "other"
+
+
 def _known_dead_table(ctx):
-    """all combinations of crafted holder info against the real Rust function"""
+    """All combinations of crafted holder info × probed process × asking uid against the real Rust functions.
+    The probed pids are real processes: this one (root), init, a reaped child, and — when the harness is root —
+    live and killed processes of two unprivileged uids; the question is asked by root in-process and by
+    processes that really run under those uids.  The `localhost` rule is asked in a private UTS namespace
+    whose host name is `localhost`."""
     install()
+    from breezy import osutils
     from breezy._cmd_rs import LockHeldInfo
+    root = can_cross_uid()
     p = subprocess.Popen(["/bin/true"])
     p.wait()
-    dead = p.pid
+    # kind -> (pid, uid class of the live process | None when there is no such process)
+    procs = {"none": (None, None), "self": (os.getpid(), 0), "init": (1, 0), "dead": (p.pid, None)}
+    askers = [0]
+    kids = []
+    if root:
+        askers += [1, 2]
+        for c in (1, 2):
+            procs["live-uid%d" % c] = (helper(c).pid, c)
+            k = helper(c).spawn()
+            kids.append(k)
+            procs["dead-uid%d" % c] = (k.pid, None)
+        for k in kids:
+            k.kill()
+    else:
+        ctx.extra["cross_uid"] = "skipped: the harness does not run as root, no process of another uid can be made"
+        ctx.assumptions.append("cross-uid holders (kill(pid, 0) = EPERM) were NOT exercised on the real code in this "
+                               "run: the harness was not root")
     cases, lines, outs = [], [], []
-    os.environ["LOGNAME"] = "verifuser1"
-    for host in (_REAL_HOST, "elsewhere.example", "localhost"):
-        for user in ("verifuser1", "verifuser2", None):
-            for pid in (None, os.getpid(), dead, 1):
-                info = LockHeldInfo.for_this_process(None)
-                info.hostname, info.user, info.pid = host, user, pid
-                info = LockHeldInfo.from_info_file_bytes(info.to_bytes())
-                got = info.is_lock_holder_known_dead()
-                bits = (host == _REAL_HOST, host == "localhost", user == "verifuser1", pid is not None, pid == dead)
-                want = bits[0] and not bits[1] and bits[2] and bits[3] and bits[4]
-                case = dict(kd=[host == _REAL_HOST and "ours" or host, user, {None: None, dead: "dead"}.get(pid, "live")])
-                if got != want:
-                    ctx.violation(case, "is_lock_holder_known_dead=%s for host/user/pid %r" % (got, case["kd"]))
+    me = "verifuser1"
+    os.environ["LOGNAME"] = me
+
+    def craft(host, user, pid):
+        info = LockHeldInfo.for_this_process(None)
+        info.hostname, info.user, info.pid = host, user, pid
+        return info.to_bytes()
+
+    def permitted(a, owner):
+        return a == 0 or a == owner
+
+    for a in askers:
+        for kind, (pid, owner) in sorted(procs.items()):
+            exists = owner is not None
+            if pid is not None:
+                # the errno of the real kill(pid, 0) and the verdict of the real is_local_pid_dead
+                if a == 0:
+                    k0, got = _kill0(pid), bool(osutils.is_local_pid_dead(pid))
+                else:
+                    k0, got = helper(a).ask(dict(op="k0", pid=pid)), helper(a).pid_dead(pid)
+                case = dict(pd=[a, kind])
+                if not exists and (k0 != "ESRCH" or os.path.exists("/proc/%d" % pid)):
+                    # the pid of the reaped process was handed out again: an environment problem, not a verdict
+                    raise env.InfraError("C26: pid %d (%s) was reused while the decision table ran" % (pid, kind))
+                if got != (not exists):
+                    ctx.violation(case, "is_local_pid_dead=%s asked by uid class %d for the %s process (%s)" % (
+                        got, a, "live" if exists else "gone", kind))
                 ctx.case(case, nontrivial=True)
-                ctx.count("known_dead:%s" % got)
+                ctx.count("pid_dead:%s" % got)
+                want_k0 = "ESRCH" if not exists else ("ok" if permitted(a, owner) else "EPERM")
+                if k0 != want_k0:
+                    raise env.InfraError("C26: the kernel's kill(%s, 0) for uid class %d gave %s, expected %s"
+                                         % (kind, a, k0, want_k0))
+                ctx.count("kill0:%s" % want_k0)
                 cases.append(case)
-                lines.append("kd " + " ".join("T" if b else "F" for b in bits))
-                outs.append("T" if got else "F")
+                lines.append("pd %s %s" % ("T" if exists else "F", "T" if permitted(a, owner) else "F"))
+                outs.append("%s %s" % (want_k0, "T" if got else "F"))
+            for host in (_REAL_HOST, "elsewhere.example", "localhost"):
+                for user in (me, "verifuser2", None):
+                    data = craft(host, user, pid)
+                    if a == 0:
+                        got = bool(LockHeldInfo.from_info_file_bytes(data).is_lock_holder_known_dead())
+                    else:
+                        got = helper(a).known_dead(me, data)
+                    bits = (host == _REAL_HOST, host == "localhost", user == me, pid is not None)
+                    want = bits[0] and not bits[1] and bits[2] and bits[3] and not exists
+                    case = dict(kd=[a, host == _REAL_HOST and "ours" or host, user, kind])
+                    if got != want:
+                        ctx.violation(case, "is_lock_holder_known_dead=%s asked by uid class %d for "
+                                      "host/user/process %r" % (got, a, case["kd"][1:]))
+                    ctx.case(case, nontrivial=True)
+                    ctx.count("known_dead:%s" % got)
+                    cases.append(case)
+                    lines.append("kdp " + " ".join("T" if b else "F" for b in bits + (
+                        exists, pid is not None and permitted(a, owner))))
+                    outs.append("T" if got else "F")
+    if root and hasattr(os, "unshare"):
+        # the `localhost` rule: in this namespace the machine IS called localhost
+        h = helper("uts")
+        for kind in ("none", "self", "dead"):
+            pid, owner = procs[kind]
+            exists = owner is not None
+            for host in ("localhost", _REAL_HOST):
+                for user in (me, "verifuser2"):
+                    got = h.known_dead(me, craft(host, user, pid))
+                    bits = (host == "localhost", host == "localhost", user == me, pid is not None)
+                    want = bits[0] and not bits[1] and bits[2] and bits[3] and not exists
+                    case = dict(kd=["uts-localhost", host == "localhost" and "ours" or "foreign", user, kind])
+                    if got != want:
+                        ctx.violation(case, "is_lock_holder_known_dead=%s on a machine named localhost for %r"
+                                      % (got, case["kd"][1:]))
+                    ctx.case(case, nontrivial=True)
+                    ctx.count("known_dead_localhost:%s" % got)
+                    cases.append(case)
+                    lines.append("kdp " + " ".join("T" if b else "F" for b in bits + (exists, pid is not None)))
+                    outs.append("T" if got else "F")
+        ctx.extra["localhost_rule"] = "exercised in a private UTS namespace named localhost"
+    else:
+        ctx.extra["localhost_rule"] = "not exercised (needs root + unshare); covered by T1 known_dead_guards_eq only"
     ctx.diff(cases, lines, outs)
+
+
+# ---- two real processes under different uids on a lock directory on disk ----------------------------------
+
+def _xproc_dir():
+    import dromedary
+    os.chmod(env.scratch(), 0o711)       # other uids may traverse (not list) the scratch directory
+    base = env.fresh_dir("xuid")
+    os.chmod(base, 0o777)
+    return base, dromedary.get_transport_from_path(base)
+
+
+_WARM = []
+
+
+def _xproc_warm():
+    """Run every code path the helper processes will need once in this process (as root), so that all lazily
+    imported modules are loaded before a fork of this process gives up the right to read them."""
+    if _WARM:
+        return                            # also true in a fork of a warmed process: it has the modules
+    _WARM.append(True)
+    install()
+    from breezy import lockdir
+    from breezy._cmd_rs import LockHeldInfo
+    saved = os.environ.get("LOGNAME")
+    p = subprocess.Popen(["/bin/true"])
+    p.wait()
+    base, t = _xproc_dir()
+    os.environ["LOGNAME"] = "verifuser1"
+    info = LockHeldInfo.for_this_process(None)
+    info.pid = p.pid
+    a = lockdir.LockDir(t, LOCK)
+    a.create()
+    t.mkdir(LOCK + "/held")
+    t.put_bytes(LOCK + "/held/info", info.to_bytes())
+    a.get_config = _StealConfig
+    a.attempt_lock()                      # steals from the dead holder
+    b = lockdir.LockDir(t, LOCK)
+    b.get_config = _StealConfig
+    try:
+        b.attempt_lock()
+    except lockdir.errors.LockContention:
+        pass
+    a.peek()
+    a.confirm()
+    a.unlock()
+    try:
+        a.confirm()
+    except lockdir.errors.LockNotHeld:
+        pass
+    if saved is None:
+        os.environ.pop("LOGNAME", None)
+    else:
+        os.environ["LOGNAME"] = saved
+
+
+def xproc_run(scs):
+    """Real processes on lock directories on disk.  sc = [holder uid class, holder LOGNAME no, dead?,
+    contender uid class, contender LOGNAME no, steal?].  Holders of one uid class are ONE long-lived process
+    of that uid (holding one lock per scenario) — or, for `dead`, one process that takes its locks and is then
+    killed and reaped; contenders are a second process per uid class.  Returns [(impl output, oracle failures)]."""
+    _xproc_warm()
+    dirs = [_xproc_dir()[0] for _ in scs]
+    me = os.getuid()
+    for h in sorted({sc[0] for sc in scs}):
+        doomed = None
+        for d, sc in zip(dirs, scs):
+            if sc[0] != h:
+                continue
+            if sc[2]:
+                if doomed is None:
+                    doomed = UidHelper(uid=UIDS[h] if h else None)
+                who = doomed
+            else:
+                who = helper(h) if h else helper(("c", 0))
+            msg = who.ask(dict(op="hold", dir=d, logname="verifuser%d" % sc[1]))
+            if msg[0] != "HELD" or msg[1] != who.pid or msg[2] != (UIDS[h] if h else me) or msg[3] != who.pid:
+                raise env.InfraError("C26: holder process of scenario %r: %r" % (sc, msg))
+        if doomed is not None:
+            os.kill(doomed.pid, signal.SIGKILL)
+            doomed.close()                # reaps: no process with that pid is left
+    results = []
+    for d, sc in zip(dirs, scs):
+        h, hu, dead, c, cu, steal = sc
+        # a process different from the holder's, also when both have the same uid
+        cont = helper(("c", c)) if (c == 0 and h != 0) or (c and c == h) else (helper(c) if c else helper(("c2", 0)))
+        res = cont.ask(dict(op="try", dir=d, logname="verifuser%d" % cu, steal=steal))
+        if res[3] != (UIDS[c] if c else me):
+            raise env.InfraError("C26: contender process of scenario %r: %r" % (sc, res))
+        if "Permission" in res[0]:
+            raise env.InfraError("C26: file permissions of the scratch lock directory: %r" % (res,))
+        conf = None
+        if not dead:
+            conf = (helper(h) if h else helper(("c", 0))).ask(dict(op="confirm", dir=d))
+        fails = []
+        acquired = res[1]
+        if acquired and not dead:
+            fails.append(
+                "a live process (uid class %d) holds the lock; a second process (uid class %d, LOGNAME %s, "
+                "locks.steal_dead=%s) for which kill(holder pid, 0) says %s acquired it too: two live holders "
+                "(holder's confirm: %s, still is_held=%s)" % (
+                    h, c, "the same" if hu == cu else "different", steal,
+                    "Ok" if c in (0, h) else "EPERM", conf[0], conf[1]))
+        elif acquired and not (hu == cu and steal):
+            fails.append("the lock of a dead holder was stolen although %s" % (
+                "the recorded user is not ours" if hu != cu else "locks.steal_dead is off"))
+        elif acquired and not res[2]:
+            fails.append("the contender has is_held but held/info is not its own")
+        results.append(("%s %s %s" % (res[0], "T" if acquired else "F", conf[0] if conf else "-"), fails))
+    return results
+
+
+def xproc_line(sc):
+    h, hu, dead, c, cu, steal = sc
+    return "xuid %s %s %s" % (_cfg_str([OUR_HOST, hu, False, h]), _cfg_str([OUR_HOST, cu, steal, c]),
+                              "T" if dead else "F")
+
+
+def _cross_process(ctx):
+    """exhaustive: holder uid class × alive/killed × contender uid class × same/other LOGNAME × steal on/off"""
+    if not can_cross_uid():
+        return
+    install()
+    cases, lines, outs = [], [], []
+    scs = [[h, 1, dead, c, 1 if same else 2, steal]
+           for h, dead, c, same, steal in itertools.product((0, 1, 2), (False, True), (0, 1, 2), (True, False),
+                                                            (True, False))]
+    for sc, (out, fails) in zip(scs, xproc_run(scs)):
+        h, _, dead, c, _, steal = sc
+        case = dict(xuid=sc)
+        for f in fails:
+            ctx.violation(case, f)
+        ctx.case(case, nontrivial=True)
+        ctx.count("xproc:%s" % out.split(" ")[0])
+        ctx.count("xproc-kill0:%s" % ("ESRCH" if dead else ("ok" if c in (0, h) else "EPERM")))
+        cases.append(case)
+        lines.append(xproc_line(sc))
+        outs.append(out)
+    ctx.diff(cases, lines, outs)
+    ctx.extra["cross_uid"] = ("real processes under uids %r: %d two-process scenarios on a lock directory on disk, "
+                              "the decision table asked by each uid, and uid classes in the scheduled runs"
+                              % (sorted(UIDS.values()), len(cases)))
 
 
 def _record(ctx, case, obs, oracle, cases, lines, outs):
@@ -833,6 +1736,8 @@ def _record(ctx, case, obs, oracle, cases, lines, outs):
         ctx.violation(case, what, family=fam)
     ctx.case(case, nontrivial=_interleaved(case["events"]))
     ctx.count("lockers:%d" % len(case["cfgs"]))
+    if any(len(c) > 3 and c[3] for c in case["cfgs"]):
+        ctx.count("uids:%d" % len({c[3] for c in case["cfgs"]}))
     for e in case["events"]:
         ctx.count("ev:" + (e[0] + e[-1] if e[0] in "sf" else e[0]))
     for o in obs[-1].split(" ")[2:]:
@@ -852,17 +1757,27 @@ def _case_job(case):
     return case, obs, oracle
 
 
+def _case_jobs(cases):
+    """one chunk of cases in a pool worker (its uid helper processes live as long as the worker)"""
+    return [_case_job(c) for c in cases]
+
+
+
+
 def run(ctx):
     install()
     cases, lines, outs = [], [], []
     corpus = os.path.join(env.VERIF, "corpus", "C26")
     if os.path.isdir(corpus):
-        import json
         for fn in sorted(os.listdir(corpus)):
             case = json.load(open(os.path.join(corpus, fn)))
+            if any(len(c) > 3 and c[3] for c in case["cfgs"]) and not can_cross_uid():
+                ctx.count("corpus-skipped-not-root")
+                continue
             obs, oracle = run_case(case)
             _record(ctx, case, obs, oracle, cases, lines, outs)
     _known_dead_table(ctx)
+    _cross_process(ctx)
     for case in F7_CASES:
         obs, oracle = run_case(case)
         _record(ctx, case, obs, oracle, cases, lines, outs)
@@ -882,14 +1797,23 @@ def run(ctx):
     # sampled
     rnd = [break_race_case(ctx.rng) for _ in range(ctx.pick(400, 6000))]
     ctx.count("directed:break-race", len(rnd))
+    uids = can_cross_uid()
+    if uids:
+        xs = [cross_uid_case(ctx.rng) for _ in range(ctx.pick(200, 4000))]
+        ctx.count("directed:cross-uid", len(xs))
+        rnd += xs
     for _ in range(ctx.pick(1800, 40000)):
-        case = random_case(ctx.rng)
+        case = random_case(ctx.rng, uids=uids)
         if ctx.thorough() and ctx.rng.random() < 0.1:
             case["local"] = True
         rnd.append(case)
-    for case, obs, oracle in ctx.pmap(_case_job, rnd):
-        _record(ctx, case, obs, oracle, cases, lines, outs)
+    nchunks = max(1, min(len(rnd) // 25, 64))
+    chunks = [rnd[i::nchunks] for i in range(nchunks)]
+    for res in ctx.pmap(_case_jobs, chunks, chunksize=1):
+        for case, obs, oracle in res:
+            _record(ctx, case, obs, oracle, cases, lines, outs)
     ctx.diff(cases, lines, outs)
+    close_helpers()
     ctx.exhaustive = True
     # report violations outside the known F7 family first
     ctx.violations.sort(key=lambda v: v["family"] is not None)
@@ -897,9 +1821,17 @@ def run(ctx):
 
 def replay(ctx, case):
     install()
-    if "kd" in case:
+    if "kd" in case or "pd" in case:
         _known_dead_table(ctx)
-        return dict(case=case, oracle_failures=[v["what"] for v in ctx.violations])
+        close_helpers()
+        return dict(case=case, oracle_failures=[v["what"] for v in ctx.violations if v["case"] == case]
+                    or [v["what"] for v in ctx.violations])
+    if "xuid" in case:
+        (out, fails), = xproc_run([case["xuid"]])
+        close_helpers()
+        for f in fails:
+            ctx.violation(case, f)
+        return dict(case=case, impl=out, model=ctx.model([xproc_line(case["xuid"])])[0], oracle_failures=fails)
     obs, oracle = run_case(case)
     for what, fam in oracle:
         ctx.violation(case, what, family=fam)
